@@ -15,6 +15,18 @@ CLAIMED = {
    text="Seeded exploration over 55 public decoding entry points: a producer makes a valid artefact with the real encoder, a medium applies 0-3 faults (truncate, bit flip, byte set, length-field inflation with 28 compact-size/PUSHDATA/CBOR-head patterns at located or seeded offsets, junk, splice, duplication, emptying, random replacement, conditional nesting to 2*10^5), optionally misdelivers it to another decoder, and the real decoder runs in a worker process whose allocator refuses any request lifting live heap above 1024*len+1MiB. Panics are caught with their site; allocator exhaustion, native stack overflow and hangs kill the worker and are attributed to run and decoder by the parent through a shared-memory breadcrumb. Sampling; quick = 60k artefacts.",
    note="alpha=1024/beta=1MiB calibrated at 4x the largest fault-free peak/len ratio (histogram in evidence on every run); CBOR decoders get beta=320MiB because serde pre-allocates min(declared, 1MiB) per sequence and ciborium recurses <=256 levels (a constant, not a declared length). Inputs to base58 decoders are capped at 8KiB (quadratic time; the property does not bound time). Scenario code runs on an explicit 8MiB stack. Known finding: recursive conditional parser overflows the stack at ~10^5 nesting (8 decoder kinds).",
    technique="deterministic simulation: seeded producer/medium/consumer pipeline with storage-fault injection, budgeted allocator and worker-process death attribution"),
+ "C05": dict(section="4/C05", scenario="ecdsa-net",
+   text="Seeded exploration of signing-world histories: every signing entry point (deterministic nonce in both byte-order modes, randomised nonce with its 32-byte OS-entropy draw scripted through the hook as uniform/zeros/ones/>=n/n-1/repeat, caller nonce, pre-hashed digest, sign_message) x both hashes x compressed/uncompressed keys biased to 1,2,3,n-1,n-2 and near n; signatures travel to four real verification entry points and a textbook verifier correctly paired, mispaired (message/hash/key) or replayed; requests are re-issued later under other entropy scripts; ECDH on both sides. Oracles: own signature verifies at both verifiers, mispairings rejected by both, s <= n/2, deterministic entry points draw 0 entropy bytes and are reproducible, randomised draws exactly 32 bytes and is a function of them, every signature equals bit-for-bit an independent RFC 6979 (incl. section 3.6 variant over SHA-256 / double-SHA-256) + textbook signing + low-S computation, ECDH symmetric and equal to x(a*B). Sampling; quick = 20k histories.",
+   note="Trusted: k256 scalar/point arithmetic (shared by both sides), sha2. RFC 6979 equality and the reference half of ECDH are reference-model oracles with no simulator dimension of their own; they ride in this world because it exists for the entropy clause. Entropy is owned through the cfg(bsv_verif) hook; with the guard off the library uses OsRng as shipped.",
+   technique="deterministic simulation: scripted OS-entropy seam + two-party exchange with mispairing/replay faults, reference-peer oracles"),
+ "C11": dict(section="4/C11", scenario="ecies-net",
+   text="Seeded exploration of exchange histories between a real sender, a real recipient, an independent BIE1 peer and a corrupting channel: five encryption entry points incl. the ephemeral-key one whose key comes from the scripted entropy seam (0-3 rejected candidates first), keys biased to 1,2,n-1,n-2, message lengths over every residue mod 16 up to 32 KiB; channel flips single bits in magic/embedded key/body/MAC and replays; delivery to real or reference recipient with the sender key known or taken from the ciphertext, right or wrong keys. Oracles: intact+right keys decrypts to the message in all four sender/recipient pairings (also after serialise/parse), the library's wire bytes equal the peer's, any flip outside the magic or any wrong key yields an error never plaintext, replay is stable, the ephemeral path draws exactly (k+1)*32 bytes. Sampling; quick = 20k exchanges.",
+   note="RefPeer = BIE1 written against k256 arithmetic, sha2, a hand-written CBC/PKCS7 over the aes block cipher and textbook HMAC. A flip inside the 4 magic bytes must give an error or exactly the message (statement does not list the magic). Truncation/extension belong to C09.",
+   technique="deterministic simulation: scripted OS-entropy seam + two-party exchange over a bit-flipping/replaying/misdelivering channel, reference-peer oracles"),
+ "C13": dict(section="4/C13", scenario="digest-stream",
+   text="Seeded exploration of feeding schedules over 1-3 live digest sinks (Sha256r, Sha256d, Hash160 and hmac::Hmac over each): messages with lengths on every padding/block boundary are cut by six fragmentation policies (1-byte dribble, block-aligned, cut at 55/56/57/63/64/65/111/112/119/120/127/128, random, zero-length fragments interleaved, one-shot) into update calls, with clone-forks, reverse(), reset and four finishing calls placed mid-stream, second messages after *_reset, plus the one-shot Hash::*, Hash::*_hmac and KDF::pbkdf2 entry points. Oracle: every finalisation equals the primitive-crate hash of exactly the bytes accepted since the last reset (reversed iff obtained through reverse()), forks are independent; HMAC/PBKDF2 equal textbook RFC 2104 / RFC 8018 compositions. Sampling; quick = 100k schedules.",
+   note="sha2 / sha-1 / ripemd160 crates are the reference for the published algorithms. The adapters' io::Write impl is compiled out in every build of bsv (digest::impl_write! is gated on a `std` feature bsv does not define), so the io::Write fragmentation path of DESIGN.md does not exist and is not exercised. Reversed instances are never reset. HMAC/PBKDF2 and SHA-1/SHA-512/RIPEMD one-shots are reference-model oracles without a schedule dimension.",
+   technique="deterministic simulation: seeded fragmentation/fork/reset scheduler over streaming digest sinks, model-based oracle"),
 }
 
 NA = {
